@@ -1,5 +1,6 @@
 """C01 — no lost wake-ups: conformance of every poll body and of the waker implementation to the
 wake protocol (register / route / forward / lock order / token / re-arm / hand-out)."""
+from ..facts import base
 from .. import scan, families
 from ..families import short
 from ..sites import is_agg
@@ -9,8 +10,8 @@ from . import prims
 
 PROPERTY = "C01"
 LEVEL = "other"
-CONFIGS_QUICK = ["std", "alloc"]
-CONFIGS_THOROUGH = ["std", "alloc", "core"]
+CONFIGS_QUICK = ["std", "alloc", "std-rel"]
+CONFIGS_THOROUGH = ["std", "alloc", "core", "std-rel", "alloc-rel", "core-rel"]
 EXPLANATION = (
     "Static conformance check of the wake protocol on the type-checked MIR of every poll body (all tuple arities, "
     "array, Vec, groups) and of the Wake impls, in each feature configuration: the task waker is registered before any "
@@ -48,11 +49,11 @@ def run(ctx):
     for cfg in ctx.configs:
         ctx.current_config = cfg
         M = ctx.model(cfg)
-        std = cfg == "std"
+        std = base(cfg) == "std"
         units = families.subwaker_units(M)
         pts = families.passthrough_units(M)
         aux = families.aux_poll_bodies(M)
-        ctx.require(len(units) >= (52 if cfg == "core" else 58), "sub-waker poll bodies (%d found in %s)" % (len(units), cfg))
+        ctx.require(len(units) >= (52 if base(cfg) == "core" else 58), "sub-waker poll bodies (%d found in %s)" % (len(units), cfg))
         for u in units:
             rule_reg(ctx, u)
             rule_route_sub(ctx, u)
@@ -68,7 +69,7 @@ def run(ctx):
         for u in units + pts:
             rule_scan(ctx, M, u)
             _flow.rule_final_values(ctx, u.bi, "C01.DONE", u.where)
-        if cfg != "core":
+        if base(cfg) != "core":
             # the groups scan their key set: a live member whose key is lost (a stale entry of the removal queue, a key
             # not inserted / wrongly removed) is never polled again although its wake-ups are forwarded
             from . import c11, c12, grouplike
@@ -99,13 +100,13 @@ def run(ctx):
         prims.check_set_waker(ctx, M, "C01.SETWAKER")
         # floors (counted on the pinned tree)
         n_tuple = 4 * 78
-        n_arr = 4 if cfg == "core" else 8
-        n_grp = 0 if cfg == "core" else 2
+        n_arr = 4 if base(cfg) == "core" else 8
+        n_grp = 0 if base(cfg) == "core" else 2
         ctx.floor("C01.REG", cfg, len(units))
         ctx.floor("C01.ROUTE", cfg, n_tuple + n_arr + n_grp + 3 * 78)
         ctx.floor("C01.TOKEN", cfg, 4 * 12 + n_arr + n_grp)
-        ctx.floor("C01.SCAN", cfg, 552 if cfg == "core" else 560)
-        ctx.floor("C01.REARM", cfg, 78 + (1 if cfg == "core" else 2) + 12 + (1 if cfg == "core" else 2))
+        ctx.floor("C01.SCAN", cfg, 552 if base(cfg) == "core" else 560)
+        ctx.floor("C01.REARM", cfg, 78 + (1 if base(cfg) == "core" else 2) + 12 + (1 if base(cfg) == "core" else 2))
         if std:
             ctx.floor("C01.LOCK", cfg, n_tuple + n_arr + n_grp)
             ctx.floor("C01.FWD", cfg, 2)
